@@ -241,6 +241,9 @@ func (sc *specCtx) ident(name string) Val {
 			return v
 		}
 	}
+	if hv, s, t := sc.vc.ghostHV(sc.pkg, name); hv != "" {
+		return &Term{"(select " + sc.vc.heapGet(sc.st, hv) + " nil)", s, t}
+	}
 	unsup("spec: unknown identifier %q", name)
 	return nil
 }
@@ -733,6 +736,33 @@ func (sc *specCtx) call(e *CCall) Val {
 			return &Term{"(s-ref " + x.S + ")", SRef, nil}
 		}
 		return x
+	case "update":
+		// update(a, i, v): array a with element i replaced by v
+		a := arg(0)
+		i := sc.solo(arg(1))
+		v := arg(2)
+		if v.Sort == litSort {
+			es := arrayElemSort(a.Sort)
+			n, _ := new(big.Int).SetString(v.S, 10)
+			if strings.HasPrefix(es, "(_ BitVec") {
+				v = &Term{vc.bigLit(n, bvBits(es)), es, nil}
+			} else {
+				v = sc.solo(v)
+			}
+		}
+		ii := i.S
+		if i.T != nil && isIntType(i.T) {
+			ii = vc.toIdx(i)
+		}
+		return &Term{"(store " + a.S + " " + ii + " " + v.S + ")", a.Sort, a.T}
+	case "fresh":
+		// allocated during the call / function (not reachable in the pre-state)
+		x := arg(0)
+		r := x.S
+		if x.Sort == SSlice {
+			r = "(s-ref " + x.S + ")"
+		}
+		return &Term{"(>= (rid " + r + ") " + sc.old.alloc + ")", SBool, nil}
 	case "off":
 		x := arg(0)
 		if x.Sort == SSlice {
